@@ -63,6 +63,10 @@ TEMPLATES = [
 # special values in an argument that is NOT the differentiated one (exact zeros, ties with the differentiated argument): functions that
 # select between their arguments depending on another one (heaviside(x1, x2) returns x2 where x1 == 0) depend on the differentiated
 # argument only at such entries.  ONLY[tname] = the positions that are differentiated for that template (others hold the special values).
+# longer vectors (some rules need at least 4 points along an axis: np.gradient) with an extra positional number
+A5 = gen((5,), k=13)
+M45 = gen((4, 5), k=17)
+TEMPLATES = [("A5int", (A5, 2), {})] + TEMPLATES + [("A5", (A5,), {}), ("M45int", (M45, 2), {}), ("M45intint", (M45, 2, 3), {}), ("A5axis", (A5,), {"axis": 0})]
 Z3 = onp.array([0.0, 1.5, 0.0])
 SPECIAL_TEMPLATES = [("ZB", (Z3, B3), {}), ("AZ", (A3, Z3), {}), ("ZAB", (Z3, A3, B3), {})]
 ONLY = {"ZB": [1], "AZ": [0], "ZAB": [1, 2]}
@@ -198,7 +202,11 @@ def sweep(shard, nshards):
         done_templates = 0
         per_arity = {}
         for tname, args, kwargs in TEMPLATES:
-            arity = sum(1 for a in args if (isinstance(a, onp.ndarray) and a.dtype.kind == "f") or isinstance(a, float))
+            # templates are capped per (number of float arguments, kinds of the OTHER arguments): f(x), f(x, 2), f(x, axis=0), f(x, (3, 1)),
+            # f(x, idx) ... are different requests (an extra positional int is np.gradient's spacing, np.roll's shift, np.repeat's count)
+            arity = (sum(1 for a in args if (isinstance(a, onp.ndarray) and a.dtype.kind == "f") or isinstance(a, float)),
+                     tuple(type(a).__name__ for a in args if not ((isinstance(a, onp.ndarray) and a.dtype.kind == "f") or isinstance(a, float))),
+                     tuple(sorted(kwargs)))
             special = tname in ONLY
             uf = getattr(onp, name, None)
             if isinstance(uf, onp.ufunc) and not is_method and len(args) > uf.nin:
@@ -207,7 +215,7 @@ def sweep(shard, nshards):
                 arity = "special"
                 if is_method:
                     continue
-            if per_arity.get(arity, 0) >= (4 if special else 2):
+            if per_arity.get(arity, 0) >= (4 if special else 3):
                 continue
             if tname == "AUB" and (is_method or isinstance(getattr(onp, name, None), onp.ufunc)):
                 continue          # a third positional array of a ufunc is its `out` argument
